@@ -86,16 +86,23 @@ def run_shard(spec):
                 break
             counters["programs"] = counters.get("programs", 0) + 1
             # ---- source check ---------------------------------------------------------------
-            lines = src.split("\n")
-            body = [ln.strip() for ln in lines[1 + len(args):]]
+            lines = [ln.strip() for ln in src.split("\n")[1:]]
             by_text = {str(t): tid for tid, t in real.mgr.tasks.items() if isinstance(t, T.ExprTask)}
+            arg_lines = {"%s = %s" % (vref, nm) for nm, vref in kwargs.items()}
             listed = []
             problem = None
-            for ln in body:
-                if ln not in by_text:
-                    problem = "source line %r is not a registered expression task" % ln
-                    break
-                listed.append(by_text[ln])
+            # the source is read for what the property speaks about (the listed expression tasks); argument
+            # assignments are recognised, any other statement is tolerated and counted (its EFFECT is judged by
+            # the behavioural comparison below, not by its shape)
+            for ln in lines:
+                if ln in by_text:
+                    listed.append(by_text[ln])
+                elif ln in arg_lines:
+                    if listed:
+                        problem = "argument assignment %r after a task statement" % ln
+                        break
+                else:
+                    counters["source_lines_not_recognised"] = counters.get("source_lines_not_recognised", 0) + 1
             counters["sources_checked"] = counters.get("sources_checked", 0) + 1
             if problem is None:
                 if len(set(listed)) != len(listed):
@@ -128,8 +135,13 @@ def run_shard(spec):
             # ---- behaviour on argument vectors ----------------------------------------------
             for vec in range(4):
                 vals = []
+                same = vec == 3 or rng.random() < 0.15
                 for l in args:
                     v = rng.choice(l["choices"]) if "choices" in l else gen.leaf_value(rng, l["kind"])
+                    if same and "choices" not in l and l["kind"] in ("float", "int", "bool"):
+                        # a value == to the one stored but of another type (2.0 -> 2, 1 -> True): assigning it through
+                        # the manager replaces the stored object, so the generated function must do so too
+                        v = hg.same_value_other_type(l, hg._cur(l))
                     vals.append(v)
                 trial = hg.shadow.clone()
                 z0 = trial.zero_divisions
